@@ -1,5 +1,5 @@
 # driver.py - generic check driver: build, probe known findings, run jobs, collect, decide, write evidence
-import os, sys, re, json, time, shutil, tempfile
+import os, sys, re, json, time, shutil, tempfile, glob
 from concurrent.futures import ThreadPoolExecutor
 from . import core
 from .core import HarnessFailure
@@ -30,6 +30,13 @@ def run_check(prop, spec, tier, seed, replay=None):
     shutil.rmtree(logdir, ignore_errors=True)
     os.makedirs(logdir, exist_ok=True)
     outdir = os.path.join(core.REPLAYS, prop)
+    if not replay:
+        shutil.rmtree(outdir, ignore_errors=True)
+        for old in glob.glob(os.path.join(core.REPLAYS, prop + '.*')):
+            try:
+                os.unlink(old)
+            except OSError:
+                pass
     os.makedirs(outdir, exist_ok=True)
 
     jobs = [j for j in spec['jobs'] if tier_val(j.get('cases', 1), tier) != 0]
@@ -49,6 +56,7 @@ def run_check(prop, spec, tier, seed, replay=None):
         return do_replay(prop, spec, bins, replay, logdir)
 
     col = core.Collected()
+    tsan_seen = {}
     violations = []     # (key, replay, msg)
     known_hits = []
     inconclusive = []
@@ -151,12 +159,29 @@ def run_check(prop, spec, tier, seed, replay=None):
             reps = core.parse_tsan(res.tsan_logs)
             col.tsan_reports += len(reps)
             for k, kind, blk in reps:
-                if k in col.tsan_distinct:
-                    continue
-                col.tsan_distinct.add(k)
-                key = '%s/tsan:%s' % (j['name'], k)
-                rp = core.write_replay('%s.%s.tsan%d.txt' % (prop, res.tag, len(col.tsan_distinct)), 'cmd=%s\nkey=%s\n\n%s\n' % (' '.join(res.cmd), key, blk))
-                violations.append((key, rp, 'ThreadSanitizer: ' + kind))
+                e = tsan_seen.setdefault(k, dict(tags=set(), blk=blk, kind=kind, job=j, res=res))
+                e['tags'].add(res.tag)
+    # A TSan report counts as a violation only when it is reproducible: seen in >= 2 independent processes of this run, or again in one of up to
+    # 3 re-runs of the reporting shard. (The volatile-as-atomic annotation is called just *before* the annotated load executes; a thread preempted in
+    # that few-ns window can produce a one-off report on correctly synchronised code. A genuinely missing synchronisation recurs.) Unconfirmed
+    # reports are listed in the evidence, never silently dropped.
+    unconfirmed = []
+    for k, e in sorted(tsan_seen.items()):
+        confirmed = len(e['tags']) >= 2
+        reruns = 0
+        while not confirmed and reruns < 3:
+            reruns += 1
+            r2 = core.run_proc(e['res'].cmd, core.base_env('tsan', logdir, 'confirm%d' % reruns), tier_val(e['job'].get('timeout', 900), tier), 'confirm%d.%s' % (reruns, e['res'].tag), logdir, e['job'].get('deadlock', False))
+            keys2 = set(x[0] for x in core.parse_tsan(r2.tsan_logs))
+            confirmed = k in keys2
+        col.tsan_distinct.add(k)
+        if confirmed:
+            key = '%s/tsan:%s' % (e['job']['name'], k)
+            rp = core.write_replay('%s.%s.tsan%d.txt' % (prop, e['res'].tag, len(col.tsan_distinct)), 'cmd=%s\nkey=%s\nseen-in-processes=%s reruns=%d\n\n%s\n' % (' '.join(e['res'].cmd), key, sorted(e['tags']), reruns, e['blk']))
+            violations.append((key, rp, 'ThreadSanitizer: ' + e['kind']))
+        else:
+            unconfirmed.append(dict(key=k, process=sorted(e['tags'])[0], reruns_without_recurrence=reruns, head=e['blk'][:600]))
+            print('NOTE: one-off ThreadSanitizer report not reproduced in %d re-runs (not counted): %s' % (reruns, k))
     for key, rp, msg, tag in col.viol:
         violations.append((key, rp, msg))
 
@@ -198,7 +223,7 @@ def run_check(prop, spec, tier, seed, replay=None):
                processes=col.procs, build_s=round(build_s, 1),
                builds=sorted(set('%s:%s' % (j['variant'], j['harness']) for j in jobs)),
                jobs=[dict(name=j['name'], variant=j['variant'], mode=j['mode'], cases=tier_val(j.get('cases', 1), tier)) for j in jobs],
-               sanitizer=dict(tsan_report_blocks=col.tsan_reports, tsan_distinct=len(col.tsan_distinct)),
+               sanitizer=dict(tsan_report_blocks=col.tsan_reports, tsan_distinct=len(col.tsan_distinct), tsan_unconfirmed_one_off_reports=unconfirmed),
                known_findings_reproduced=known_hits, excluded_triggers=[k for k, _ in findings],
                inconclusive=inconclusive, violations_found=[dict(key=k, replay=r, msg=m[:300]) for k, r, m in new_viol])
     if spec.get('exhaustive'):
